@@ -7,7 +7,9 @@ from .. import common as C
 ARGS = [((), {}), ((1,), {}), ((2,), {}), ((-1,), {}), ((-2,), {}), ((0,), {}), ((2 ** 61 - 1,), {}),
         ((1, 2), {}), ((1,), {"a": 1, "b": 2}), ((1,), {"b": 2, "a": 1}), (("x",), {}), (((1, 2),), {}), ((), {"a": 1}), ((), {"a": 2}),
         # keyword values that are == across types but have different JSON texts: distinct keys under the default key function
-        ((), {"a": True}), ((), {"a": 1.0})]
+        ((), {"a": True}), ((), {"a": 1.0}),
+        # a keyword value that is itself a dict, written in two insertion orders: equal arguments, one key
+        ((), {"o": {"p": 1, "q": 2}}), ((), {"o": {"q": 2, "p": 1}})]
 CUSTOM = {"first": lambda args, kwargs: args[0] if args else None,
           "nargs": lambda args, kwargs: len(args) + len(kwargs)}
 
@@ -47,7 +49,12 @@ def build(case):
                     self._vid = counter["n"]
                     counter["n"] += 1
                 self._vlog.append((type(self), a, k))
-            cls = metas[c["meta"]](f"S{ci % 2}", (), {"__init__": __init__})
+            ns = {"__init__": __init__}
+            if c.get("falsy") == 1:          # instances that are FALSY (an empty container-like object / __bool__ False)
+                ns["__len__"] = lambda self: 0
+            elif c.get("falsy") == 2:
+                ns["__bool__"] = lambda self: False
+            cls = metas[c["meta"]](f"S{ci % 2}", (), ns)
         else:
             cls = type(classes[c["parent"]])(f"S{ci % 2}", (classes[c["parent"]],), {})
         classes.append(cls)
@@ -69,7 +76,8 @@ class SemiHistory(Leg):
     rule = ("lock-step histories (4-22 calls) of construction (1 in 7 with an __init__ that raises) / add_mapping / drop / check / get_all / clear over 2-4 classes: own "
             "metaclass each, a metaclass object shared by two classes, subclasses of a semi-singleton class, custom hash functions; "
             "argument pool with distinct values of equal hash (-1 / -2, 0 / 2**61-1), keyword order permutations, nested tuples, keyword "
-            "values equal across types (1 / True / 1.0: distinct keys by their JSON text); "
+            "values equal across types (1 / True / 1.0: distinct keys by their JSON text), a nested dict value in two insertion orders; "
+            "2 in 5 root classes with falsy instances; "
             "keys are interned by the intended equality, so a key function that conflates or splits them shows as a disagreement; "
             "non-trivial = two classes share a metaclass object or are parent/child and both are constructed with the same key")
     quick_n = 500
@@ -85,11 +93,16 @@ class SemiHistory(Leg):
                     classes.append({"meta": None, "parent": rng.randrange(i)})
                 else:
                     classes.append({"meta": rng.randrange(nm), "parent": None})
+            for c in classes:
+                if c["parent"] is None:
+                    c["falsy"] = rng.choice([0, 0, 0, 1, 2])
             ops = []
             ninst = 0
             few = rng.sample(range(len(ARGS)), 4)
             if rng.random() < 0.25:
                 few = [12, 14, 15, rng.randrange(len(ARGS))]       # a=1 / a=True / a=1.0 as keyword values
+            elif rng.random() < 0.2:
+                few = [16, 17, rng.randrange(len(ARGS)), rng.randrange(len(ARGS))]     # the nested dict in both orders
             for _ in range(rng.randint(4, 22)):
                 r = rng.random()
                 ci = rng.randrange(len(classes))
